@@ -150,13 +150,19 @@ class Harness:
             target = T.TARGETS[case['ending']]
             args = (mpath, 99 if case.get('us_none') else case.get('loop', 2))
         st = None
+        ffault = fault_is_frontend = case.get('fault') == 'fpause'
+        if ffault:
+            # the fault is placed in the PARENT-side forwarding thread: pause it at line event n, SIGKILL the backend, resume it
+            self._write_plan({})                 # no tracer in the backend
+            plan = dict(plan, anchor='_run_frontend', fault='pause', arm_text=['self._startup_sync.set()'])
+            st = vfagent.install(plan)
         if kind == 'thread':
             st = vfagent.install(plan)
         t0 = time.time()
         try:
             w = cls(target, args=args, **kw)
         finally:
-            if kind == 'thread':
+            if kind == 'thread' or ffault:
                 sys.settrace(None)          # keep tracing new threads only (threading.settrace stays)
         obs = {'ctor_s': round(time.time() - t0, 3)}
         pid = w.pid if kind != 'thread' else None
@@ -179,6 +185,23 @@ class Harness:
         term_ret = 'na'
         us_alive = 'na'
         closed_early = False
+        if fault == 'fpause':
+            try:
+                report = self.reports.get(timeout=0.6)
+            except queue.Empty:
+                w.close()
+                closed_early = True
+                try:
+                    report = self.reports.get(timeout=3)
+                except queue.Empty:
+                    report = None
+            if report is not None:
+                us_alive = _us(w, case)
+                _kill_pid(pid)                  # the backend is gone while the frontend sits at that line
+                time.sleep(0.1)
+                report = dict(report, type='fpaused')
+            if st is not None:
+                st.go.set()
         if fault in ('pause', 'stop'):
             try:
                 if pers:
@@ -276,7 +299,7 @@ class Harness:
             obs['stream'] = consumer.finish(w)
         else:
             obs['stream'] = _stream(w, items) if pers else {'got': [], 'end': 'na', 'again': 'na'}
-        if kind == 'thread':
+        if kind == 'thread' or ffault:
             vfagent.uninstall()
         ev = _events(cdir)
         if not dead:
